@@ -10,16 +10,21 @@ from harness import intexpr_streams as S
 TRUSTED = [
     'Coq 8.16.1 kernel (coqc, vm_compute); coqchk in thorough tier',
     'axioms: none (Print Assumptions must report "Closed under the global context" for every theorem of Props/C04.v)',
-    'Spec/CPlural.v: hand-written reading of plural.y (stratified %left/%right grammar) and eval-plural.h (ceval, InRange)',
+    'Spec/CPlural.v: hand-written reading of plural.y (stratified %left/%right grammar G, clause-by-clause transcription yylex1/Yylex '
+    'of its yylex) and eval-plural.h (ceval, InRange)',
     'hand-written Gallina model Model/IntExpr.v (lex, pgo, pyeval) of lib/intexpr.py / gettext.parse_plural_expression',
     'Generated/PyConsts.v (int_max_str_digits read from the interpreter after `import lib`), regenerated every run',
     'extraction (ExtrOcamlBasic only) + ocaml/driver.ml + zarith for decimal I/O',
     'harness reference parser/evaluator (tools/harness/intexpr_lib.py ref_parse/ref_eval), written from plural.y / eval-plural.h',
-    'rply (lexer order, LALR tables, precedence resolution) is modelled by a precedence-climbing parser, not verified; '
-    'the lexer model is not separately proved against plural.y yylex (covered by the character-level correspondence)',
+    'rply itself (lexer rule order, LALR tables, precedence resolution) is not verified: it is modelled by lex + a precedence-climbing '
+    'parser, which ARE proved equal to plural.y yylex + the stratified grammar (C04_lexer_spec, C04_parse_iff, C04_accept_iff); '
+    'model = rply-built parser is the correspondence below',
 ]
-ASSUME = ['completeness of the parser model w.r.t. the grammar (G ts e -> parse = Ok e) is not a theorem; acceptance is compared with the '
-          'independent reference parser on every token sequence of length <= 4 (quick) / <= 5 (thorough)']
+ASSUME = ['a plural expression is a string plural.y accepts AND reads to its end: plural.y stops at ";", newline and NUL and ignores the '
+          'rest, the tool rejects these characters (C04_terminator_rejected, C04_no_terminator); they cannot reach the parser from a '
+          'header field except NUL',
+          'NUMBER is the unbounded decimal value (plural.y accumulates in unsigned long and wraps at 2^W); constants >= 2^32 are outside '
+          'the range in which evaluation is compared (InRange)']
 
 CHARS = ['n', '1', '0', '9', ' ', '\t', '!', '=', '<', '>', '&', '|', '+', '-', '*', '/', '%', '?', ':', '(', ')', 'x', '\n', '٣', ';', 'N', '\x00', '²']
 
